@@ -144,3 +144,99 @@ def check_tiling(ctx, fi, rule='R-TILE/window'):
                    f'`{unparse(loop.iter)[:60]}` walks axis {aN[2]} with '
                    f'the chunk extent of axis {aS[2]}')
     return n
+
+
+def check_window_writes(ctx, fi, rule='R-TILE/every-window-written'):
+    """in a chunked loop that writes its window to a destination
+    (`dst[a:b] = f(src[a:b])`), every iteration performs the write: a
+    window that is skipped stays at the destination's fill value."""
+    from . import coverage as CV
+    cfg = cfg_of(fi)
+    n = 0
+    loops = list(_tiling_loops(fi))
+    loops.sort(key=lambda l: (l.lineno, l.col_offset))
+    for li, loop in enumerate(loops):
+        v = loop.target.id
+        # names bound to the window of this loop: the loop variable and
+        # locals computed from it inside the loop
+        wv = {v}
+        grow = True
+        while grow:
+            grow = False
+            for st in ast.walk(loop):
+                if isinstance(st, ast.Assign) and len(st.targets) == 1 \
+                        and isinstance(st.targets[0], ast.Name) \
+                        and st.targets[0].id not in wv and any(
+                            isinstance(x, ast.Name) and x.id in wv
+                            for x in ast.walk(st.value)):
+                    wv.add(st.targets[0].id)
+                    grow = True
+        stores = []
+        for st in ast.walk(loop):
+            if isinstance(st, ast.Assign) and isinstance(
+                    st.targets[0], ast.Subscript) \
+                    and CV.innermost_loop(st) is loop:
+                tg = st.targets[0]
+                sls = [tg.slice] if isinstance(tg.slice, ast.Slice) else (
+                    [x for x in tg.slice.elts if isinstance(x, ast.Slice)]
+                    if isinstance(tg.slice, ast.Tuple) else [])
+                if any(s_.lower is not None and any(
+                        isinstance(x, ast.Name) and x.id == v
+                        for x in ast.walk(s_.lower)) for s_ in sls):
+                    stores.append(st)
+        for k, st in enumerate(stores):
+            n += 1
+
+            def act(node, _st=st):
+                return node.ast is _st
+            CV.check_cover(
+                ctx, fi, rule, f'{fi.qual}:range#{li}:store#{k}', loop, act,
+                what='window',
+                consequence=f'`{unparse(st.targets[0])[:40]}` is not '
+                'written for it and keeps the fill value of the '
+                'destination')
+    return n
+
+
+def check_whole_axis(ctx, fi, rule='R-TILE/whole-axis'):
+    """a loop over `range(N // S)` whose body addresses window i as
+    [i*S : i*S + S] covers only the whole windows: the last N % S entries
+    are never visited"""
+    cfg = cfg_of(fi)
+    rd = rd_of(fi)
+    ex = Expander(fi)
+    n = 0
+    for loop in ast.walk(fi.node):
+        if not (isinstance(loop, ast.For) and isinstance(
+                loop.target, ast.Name) and isinstance(
+                    loop.iter, ast.Call) and isinstance(
+                        loop.iter.func, ast.Name)
+                and loop.iter.func.id == 'range'
+                and len(loop.iter.args) == 1):
+            continue
+        hdr = [x for x in cfg.nodes_of(loop) if x.kind == 'for'
+               and x.id in rd.live]
+        if not hdr:
+            continue
+        t = ex.expand(loop.iter.args[0], hdr[0].id)
+        if not (isinstance(t, tuple) and t and t[0] == 'binop'
+                and t[1] == 'FloorDiv'):
+            continue
+        # the body multiplies the loop variable by something and uses it
+        # as a slice bound
+        v = loop.target.id
+        uses = False
+        for st in ast.walk(loop):
+            if isinstance(st, ast.BinOp) and isinstance(st.op, ast.Mult) \
+                    and any(isinstance(x, ast.Name) and x.id == v
+                            for x in (st.left, st.right)):
+                uses = True
+        if not uses:
+            continue
+        n += 1
+        ctx.touch(fi)
+        ctx.fail(rule, f'{fi.qual}:range#{n - 1}', fi.loc(loop),
+                 f'`{unparse(loop.iter)[:60]}` counts only the whole '
+                 f'windows ({fmt_term(t)[:60]}): when the length is not a '
+                 'multiple of the window the remainder is never visited')
+    return n
